@@ -5,7 +5,7 @@ Shards are described by their *shape* only: nil / length / capacity.  Every slic
 the Go code computes from caller-controlled values is performed here with an explicit bounds
 check whose failure is the outcome `panic`, so "never panics" is a theorem with content.
 Mirrors the code after the `fix:` commits (7b8525f, 0ba1869, 674193f, d4cd075, 33b1873, eef0134,
-40188d9, a37e7db).
+40188d9, a37e7db, 6e0b732, bd2a6b4).
 -/
 namespace RSV.Model.Api
 
@@ -121,7 +121,48 @@ def encodeIdx (k : Kind) (d p : Nat) (dataLen : Nat) (idx : Int) (parity : List 
       | none => .panic
       | some p0 => if p0.len ≠ dataLen then .err .shardSize else .ok
 
-/-- `Update(shards, newDatashards)` -/
+/-- The one fact about Go slices that the record `Sh` does not enforce and that `Update` needs: a nil
+slice has length 0.  (`Update` tests `newDatashards[i] != nil` in its argument check but
+`len(in) == 0` in its kernels; the two tests are related only through this fact.)  Every shape the
+driver builds from an `api` request satisfies it. -/
+def Sh.wf (x : Sh) : Bool := !x.isNil || x.len == 0
+
+/-- The slice expressions of the update kernels (`updateParityShards`, and its goroutine variant
+`updateParityShardsP`, which works on windows `[start:stop]` with `stop ≤ byteCount`), evaluated on
+shapes: `true` = some slice expression is out of range.  `byteCount = shardSize(shards)`.
+For every data position `c < d` whose new shard is not skipped (`len(in) != 0`, fix 6e0b732):
+* `sliceXor(in, oldin)`;  `P`: `sliceXor(in[start:stop], oldin[start:stop])`;
+* for every parity row `galMulSliceXor(coef, oldin, outputs[r])`;
+  `P`: `galMulSliceXor(coef, oldin[start:stop], outputs[r][start:stop])`.
+`sliceXor(in, out)` and `galMulSliceXor(c, in, out)` slice `out[:len(in)]`; the pure-Go `sliceXor`
+loop also runs while `len(out) >= 32` and slices `in[:32]` there.  Both are in range when the two
+lengths are equal, which is what is required here (a shorter `out` always fails, a longer one may).
+Which variant runs depends on the options, so either failing counts.  A slice expression that reaches
+beyond `len` counts as out of range (Go's run-time check compares with `cap ≥ len`; beyond `len` the
+assembler kernels would write into memory the caller did not hand over). -/
+def updateOob (d : Nat) (s nw : List Sh) : Bool :=
+  let n := shardSize s
+  let outputs := s.drop d
+  (List.range d).any fun c =>
+    match idx? nw c, idx? s c with
+    | some inp, some oldin =>
+      inp.len ≠ 0 &&
+        (oldin.len ≠ inp.len || inp.len < n || oldin.len < n ||
+          outputs.any fun out => out.len ≠ oldin.len || out.len < n)
+    | _, _ => false
+
+/-- the first check loop of `Update`: `newDatashards[i] != nil && len(shards[i]) == 0` for some
+`i < d` (fix bd2a6b4; before: `shards[i] == nil`) -/
+def updateMissingOld (d : Nat) (s nw : List Sh) : Bool :=
+  (List.range d).any fun i =>
+    match idx? nw i, idx? s i with
+    | some a, some b => !a.isNil && b.len == 0
+    | _, _ => false
+
+/-- `Update(shards, newDatashards)`.  After the argument checks the kernels slice the old data shards
+and the parity shards to the length of the new shards; that is modelled by `updateOob`, whose failure
+is the outcome `panic` — so "never panics" says that the argument checks are sufficient for the
+slicing (before fix bd2a6b4 they were not: a zero-length non-nil old shard passed them). -/
 def update (k : Kind) (d p : Nat) (s nw : List Sh) : Outcome :=
   if leoK k then .err .notSupported
   else if s.length ≠ d + p then .err .tooFewShards
@@ -133,15 +174,15 @@ def update (k : Kind) (d p : Nat) (s nw : List Sh) : Outcome :=
       | none =>
         if shardSize nw ≠ shardSize s then .err .shardSize          -- fix 0ba1869
         else
-          -- `newDatashards[i] != nil && shards[i] == nil` for i < len(newDatashards) = d ≤ len(shards)
-          let bad1 := (List.range d).any fun i =>
-            match idx? nw i, idx? s i with
-            | some a, some b => !a.isNil && b.isNil
-            | _, _ => false
+          -- `newDatashards[i] != nil && len(shards[i]) == 0` for i < len(newDatashards) = d ≤ len(shards)
+          let bad1 := updateMissingOld d s nw
           let idxOk := (List.range d).all fun i => (idx? nw i).isSome && (idx? s i).isSome
           if !idxOk then .panic
           else if bad1 then .err .invalidInput
-          else if (s.drop d).any (·.isNil) then .err .invalidInput
+          -- `len(p) == 0` for p in shards[d:] (fix bd2a6b4; before: `p == nil`)
+          else if (s.drop d).any (·.len == 0) then .err .invalidInput
+          -- updateParityShards(r.parity, shards[0:d], newDatashards[0:d], shards[d:], p, shardSize(shards))
+          else if updateOob d s nw then .panic
           else .ok
 
 /-- `Split(data)` — outcome and number of shards -/
